@@ -384,6 +384,11 @@ func (e effect) String() string { return fmt.Sprintf("%c:%s", e.Kind, e.Desc) }
 const (
 	crashBefore = 0
 	crashAfter  = 1
+	// stopInCommit: not a kill. The service context is cancelled while the driver is inside the commit callback of
+	// effect k (the node is shutting down while the block is being persisted): the callback reports failure, the commit
+	// does not complete, and the driver winds down on its own orderly path (Driver.Run returns, its deferred Close()
+	// runs with every harness object LIVE). The durable state is what that orderly exit leaves behind.
+	stopInCommit = 2
 )
 
 type crashSpec struct {
@@ -417,6 +422,7 @@ type world struct {
 	effects []effect
 	crash   *crashSpec
 	dead    bool // the process has been killed: all harness objects are inert
+	stopped bool // the process was told to stop inside a commit callback (stopInCommit) and is winding down
 	// frozen at the kill instant
 	deadRef       *durable
 	deadCommitted types.Height
@@ -690,6 +696,11 @@ func (c commitL) OnCommit(_ context.Context, h types.Height, v V) bool {
 	idx := w.enter('K', fmt.Sprintf("commit(%d %s)", h, valName(&v)))
 	if idx < 0 {
 		return false
+	}
+	if w.crash != nil && w.crash.When == stopInCommit && w.crash.At == idx {
+		w.stopped = true
+		c.p.cancel()
+		return false // the block was not persisted: this commit did not complete
 	}
 	if h != w.committed+1 {
 		w.violate(fmt.Sprintf("commit-callback-out-of-order [replaying=%v]", !c.p.replayDone),
